@@ -2,6 +2,7 @@
 import os
 
 from harness import common
+from harness import families
 from harness import gen
 from harness import proggen
 from harness import semrun
@@ -17,6 +18,14 @@ def Cases(tier):
     prog, query, feats = gen.Generate(rng, gen.AGG)
     cases.append({'id': 'g%d' % i, 'prog': prog, 'query': query, 'stages': True,
                   'meta': {'features': feats, 'source': 'random'}})
+  # directed families: sibling / nested combines with equal local names,
+  # injection x combines, key-less aggregates, double negation
+  fams = families.SEM_FAMILIES[1:] + families.C08_FAMILIES[:6]
+  for k in range((3 if tier == 'quick' else 40) * len(fams)):
+    name, fn = fams[k % len(fams)]
+    prog, query, feats = fn(rng)
+    cases.append({'id': 'sf%d' % k, 'prog': prog, 'query': query,
+                  'stages': True, 'meta': {'features': feats}})
   # spec -> code: programs enumerated by TLC from spec/ProgGen.tla
   if tier == 'quick':
     pg, st, gen_, total = proggen.Cases('ProgGen_agg_q.cfg', 250, rng, 'pg')
@@ -33,7 +42,7 @@ EXTRA = {}
 
 REQUIRED = ['proggen', 'pg_negation', 'pg_agg_Sum', 'pg_agg_List', 'pg_head_agg',
             'distinct', 'multi_body_agg', 'negation', 'neg_conj', 'nested_agg',
-            'argminmax', 'clash_local_names', 'aggexpr_corr0', 'aggexpr_corr1',
+            'argminmax', 'fam_sibling_combines', 'fam_shared_local', 'aggexpr_corr0', 'aggexpr_corr1',
             'aggexpr_corr2', 'head_agg_Sum', 'head_agg_Min', 'head_agg_Max',
             'head_agg_Count', 'head_agg_List', 'head_agg_Set', 'head_agg_ArgMin',
             'head_agg_ArgMax', 'null_fact']
